@@ -23,6 +23,15 @@ Theorem C20_venn_conserves :
 Proof. exact venn_conserves. Qed.
 Print Assumptions C20_venn_conserves.
 
+(* ... and the function does return (no exception) whenever no sorter is empty and every channel
+   falls inside the channel bins: every sample of a chunk falls inside the sample bins. *)
+Theorem C20_venn_total : forall (P : vparams) (trains : list (list spike)),
+  0 < v_xbin P -> 0 < v_chunk P -> (forall t, In t trains -> t <> []) ->
+  (forall t sp, In t trains -> In sp t -> 0 <= snd sp / v_ybin P < v_ny P) ->
+  exists res, venn P trains = Some res.
+Proof. exact venn_total. Qed.
+Print Assumptions C20_venn_total.
+
 (* the hypotheses are satisfiable, several chunks, non-trivial result: {'01':1,'10':2,'11':3} *)
 Example venn_example :
   venn {| v_xbin := 4; v_ybin := 2; v_nchan := 8; v_chunk := 10 |}
